@@ -756,3 +756,47 @@ func Diff(a, b reflect.Value) (path, typ, ca, cb string) {
 	}
 	return "", t.String(), Canon(a), Canon(b)
 }
+
+// HasNestedNilSlice reports whether v contains a nil slice as an element of a map or of another slice
+// (as opposed to a nil slice held directly by a struct field or being the value itself).
+func HasNestedNilSlice(v reflect.Value) bool { return nestedNil(v, false, 0) }
+
+func nestedNil(v reflect.Value, inContainer bool, d int) bool {
+	if !v.IsValid() || d > 40 {
+		return false
+	}
+	switch v.Kind() {
+	case reflect.Slice:
+		if v.IsNil() {
+			return inContainer
+		}
+		if v.Type().Elem().Kind() == reflect.Uint8 {
+			return false
+		}
+		for i := 0; i < v.Len(); i++ {
+			if nestedNil(v.Index(i), true, d+1) {
+				return true
+			}
+		}
+	case reflect.Map:
+		for _, k := range v.MapKeys() {
+			if nestedNil(v.MapIndex(k), true, d+1) {
+				return true
+			}
+		}
+	case reflect.Struct:
+		if v.Type() == timeType {
+			return false
+		}
+		for i := 0; i < v.NumField(); i++ {
+			if v.Type().Field(i).IsExported() && nestedNil(v.Field(i), false, d+1) {
+				return true
+			}
+		}
+	case reflect.Pointer, reflect.Interface:
+		if !v.IsNil() {
+			return nestedNil(v.Elem(), inContainer, d+1)
+		}
+	}
+	return false
+}
